@@ -31,25 +31,26 @@ class Knobs:
     tabstops_in_ppr: float = 0.0  # D12
     toggle_off_values: float = 0.0  # D8
     valign_baseline: float = 0.0  # D9
-    sym_without_char: float = 0.0  # D16
+    sym_without_char: float = 0.08  # D16
     alt_text_markup: float = 0.0  # D17
     math_markup: float = 0.0  # D22
-    link_mixed_format: float = 0.0  # D7
-    link_dangling: float = 0.0  # D6
+    link_mixed_format: float = 0.15  # D7
+    link_dangling: float = 0.08  # D6
     nested_tables: float = 0.0  # D10
     sdt_in_table: float = 0.0  # D21
-    vmerge_continue_val: float = 0.0  # D5
-    grid_before: float = 0.0  # D2
-    checkbox_onoff: float = 0.0  # D4
-    ddlist_empty: float = 0.0  # D3
+    vmerge_continue_val: float = 0.3  # D5
+    grid_before: float = 0.05  # D2
+    checkbox_onoff: float = 0.3  # D4
+    ddlist_empty: float = 0.1  # D3
     ddlist_markup: float = 0.0  # drop-down entries with & < > (not escaped in html)
-    no_r_namespace: float = 0.0  # D1
-    start_zero: float = 0.0  # D13
-    markers_in_link: float = 0.0  # D23
-    comment_in_heading: float = 0.0  # D11
+    no_r_namespace: float = 0.08  # D1
+    start_zero: float = 0.1  # D13
+    markers_in_link: float = 0.08  # D23
+    comment_in_heading: float = 0.5  # D11
     adjacent_links_diff_anchor: float = 0.0  # D20
-    xml_comment_in_props: float = 0.0  # comment inside rPr/pPr/tcPr
+    xml_comment_in_props: float = 0.05  # comment inside rPr/pPr/tcPr
     cell_without_par: float = 0.0
+    nested_par_in_table: float = 0.0  # D27: text box inside a table cell
     nested_pars: float = 0.15  # text boxes
     # ordinary variety
     tables: float = 0.3
@@ -90,6 +91,7 @@ class Gen:
         self.images: dict[str, bytes] = {}
         self.num_ids: list[str] = []
         self.depth = 0
+        self.in_cell = 0
 
     # ------------------------------------------------------------ basics
     def p(self, prob: float) -> bool:
@@ -140,7 +142,8 @@ class Gen:
         self.feat("xml_trivia")
         kids = list(parent)
         pos = self.r.randint(0, len(kids))
-        node = etree.Comment(" c ") if self.p(0.7) else etree.ProcessingInstruction("pi", "d")
+        # private-use characters: never part of a generated needle (C17)
+        node = etree.Comment("\ue000") if self.p(0.7) else etree.ProcessingInstruction("pi", "\ue001")
         parent.insert(pos, node)
 
     # --------------------------------------------------------------- rPr
@@ -237,7 +240,11 @@ class Gen:
                 items.append(self.pict())
             elif c < 0.93 and self.p(self.k.forms * 4):
                 items.append(self.form_field())
-            elif c < 0.97 and allow_nested and self.depth < 2 and self.p(self.k.nested_pars * 3):
+            elif c < 0.97 and allow_nested and self.depth < 2 and self.p(self.k.nested_pars * 3) and (
+                self.in_cell == 0 or self.p(self.k.nested_par_in_table)
+            ):
+                if self.in_cell:
+                    self.feat("nested_par_in_table")
                 items.append(self.textbox())
             else:
                 items.append(self.E("w:t", {}, text=self.text()))
@@ -518,7 +525,25 @@ class Gen:
         return p
 
     # --------------------------------------------------------------- tables
+    def table_grid_before(self):
+        """row 0 starts with a grid gap and has one cell (vMerge restart); row 1
+        has two cells, the second continuing the merge"""
+        self.feat("table")
+        self.feat("grid_before")
+        tbl = self.E("w:tbl", {}, self.E("w:tblPr"),
+                     self.E("w:tblGrid", {}, self.E("w:gridCol", {"w:w": "1"}), self.E("w:gridCol", {"w:w": "1"})))
+        r0 = self.E("w:tr", {}, self.E("w:trPr", {}, self.E("w:gridBefore", {"w:val": "1"})),
+                    self.E("w:tc", {}, self.E("w:tcPr", {}, self.E("w:vMerge", {"w:val": "restart"})),
+                           self.paragraph(simple=True)))
+        r1 = self.E("w:tr", {}, self.E("w:tc", {}, self.paragraph(simple=True)),
+                    self.E("w:tc", {}, self.E("w:tcPr", {}, self.E("w:vMerge")), self.E("w:p")))
+        tbl.append(r0)
+        tbl.append(r1)
+        return tbl
+
     def table(self, nested=False):
+        if self.p(self.k.grid_before) and not nested:
+            return self.table_grid_before()
         self.feat("table")
         nrows = self.r.randint(1, 4)
         ncols = self.r.randint(1, 4)
@@ -551,8 +576,6 @@ class Gen:
             tr = self.E("w:tr")
             if self.p(0.2):
                 tr.append(self.E("w:trPr", {}, self.E("w:cantSplit")))
-            if self.p(self.k.grid_before) and ncols > 1:
-                self.feat("grid_before")
             j = 0
             while j < ncols:
                 r0, c0, h, w = rects[owner[i][j]]
@@ -570,6 +593,7 @@ class Gen:
                     else:
                         tcpr.append(self.E("w:vMerge"))
                 tc = self.E("w:tc")
+                self.in_cell += 1
                 if tcpr or self.p(0.3):
                     pr = self.E("w:tcPr", {}, *tcpr)
                     if self.p(self.k.xml_comment_in_props):
@@ -594,6 +618,7 @@ class Gen:
                     else:
                         for _ in range(self.r.choice([1, 1, 1, 2])):
                             tc.append(self.paragraph())
+                self.in_cell -= 1
                 tr.append(tc)
                 j += w
             tbl.append(tr)
@@ -638,6 +663,10 @@ class Gen:
         else:
             for b in self.blocks(self.r.randint(1, 3)):
                 root.append(b)
+        if self.p(self.k.no_r_namespace):
+            etree.cleanup_namespaces(root)
+            if "r" not in root.nsmap:
+                self.feat("no_r_namespace")
         return root
 
     def notes_part(self, kind: str):
